@@ -197,3 +197,30 @@ def nontrivial(case, impl_out):
 
 def known_region(case, impl_out, model_out, spec):
     return None
+
+
+def custom(run, tier):
+    """Parsing is a function of the string: what was parsed BEFORE — rejected strings whose error sits inside parentheses or a function
+    argument included — decides nothing.  60 malformed strings of that kind (error at nesting depth 1-4), then every valid nested string
+    of a small family must parse to the program it parsed to before."""
+    import impl
+    from framework import Finding
+
+    valid = ["(a+b)*2", "min(a,(b+1)*2)", "((a))", "isqrt((a+b)*(a-b+9))", "max(min(a,b),isqrt(a*a))", "n=((a+1)*(b+1))/2", "(((a+1)+1)+1)+1", "min(max(a,1),max(b,1))",
+             "a*(b+(a*(b+(a*(b+1)))))", "isqrt(isqrt(isqrt(a+255)))"]
+    before = {s: impl.handle(f"PARSE\t{s}") for s in valid}
+    bad_inner = ["(a+b%)", "min((a+2x),b)", "((a+))", "(((a$)))", "max(a,(b+?))", "isqrt((a b))", "((((a+#))))", "min(max(a,(b!)),1)", "(a+(b+(c+(d~))))", "isqrt(min(a,(b+@)))"]
+    n = 0
+    for rounds in range(6):
+        for b in bad_inner:
+            impl.handle(f"PARSE\t{b}")
+            n += 1
+    for s, was in before.items():
+        now = impl.handle(f"PARSE\t{s}")
+        n += 1
+        if now != was:
+            run.findings.append(Finding("failing-input", f"after {6 * len(bad_inner)} rejected strings (errors inside parentheses / function arguments) the valid string {s!r} parses to {now!r}, "
+                                        f"before them to {was!r}: parsing depends on what was parsed before", Case(f"PARSE\t{s}", "after-rejected"), now, "", was))
+    run.n_cases += n
+    run.n_distinct_nontrivial += len(valid)
+    run.dist["after-rejected-strings"] += n
